@@ -384,5 +384,38 @@ def rule_e(ctx: Ctx) -> None:
     ctx.explain('C01.e: the recursion of iter_substitutes is not control dependent on the abstractness of the member.')
 
 
-RULES = [rule_a, rule_b, rule_c, rule_d, rule_e]
+def rule_f(ctx: Ctx) -> None:
+    """A group matches the empty child sequence when it may occur zero times, has no particles, or - choice: one branch is emptiable,
+    sequence/all: every particle is.  The model visitor and is_missing() rely on exactly this reading (it is not "effective minimum
+    occurrences are zero": a branch that can only be empty, like <xs:sequence/>, contributes no occurrences but makes the choice
+    emptiable)."""
+    rule = 'C01.f'
+    f = ctx.idx.method('xmlschema.validators.groups.XsdGroup', 'is_emptiable')
+    ctx.analysed(f.qualname)
+    from .c16 import fold
+    body = [s_ for s_ in f.node.body if not (isinstance(s_, ast.Expr) and isinstance(s_.value, ast.Constant))]
+    for choice in (True, False):
+        env = {"self.model == 'choice'": choice, "self.model != 'choice'": not choice}
+        und: list = []
+        rets = fold(body, env, und)
+        ok = len(rets) == 1 and not und
+        det = ''
+        if ok:
+            r = rets[0]
+            parts = [text(v) for v in (r.values if isinstance(r, ast.BoolOp) and isinstance(r.op, ast.Or) else [r])]
+            want_q = 'any' if choice else 'all'
+            quant = [p for p in parts if p.startswith(f'{want_q}(') and '.is_emptiable()' in p and p.rstrip(')').endswith('in self')]
+            wrong = [p for p in parts if p.startswith(('all(', 'any(')) and p not in quant]
+            ok = 'self.min_occurs == 0' in parts and ('not self' in parts or 'not self._group' in parts or 'len(self) == 0' in parts) and bool(quant) and not wrong \
+                and len(parts) == 3
+            det = '' if ok else f'returns `{text(r)[:90]}`'
+        else:
+            det = f'{len(rets)} result(s), undecided tests {und[:2]}'
+        ctx.ob(rule, f'XsdGroup.is_emptiable ({"choice" if choice else "sequence/all"}): minOccurs = 0, or no particles, or '
+               f'{"some" if choice else "every"} particle emptiable', f.loc(), ok, det, key=f'is_emptiable|{"choice" if choice else "other"}')
+    ctx.explain('C01.f: XsdGroup.is_emptiable folded for model == choice and for the other models; the returned disjunction must consist '
+                'of the three specified disjuncts with any() for a choice and all() otherwise.')
+
+
+RULES = [rule_a, rule_b, rule_c, rule_d, rule_e, rule_f]
 THOROUGH = [thorough_a]
